@@ -183,7 +183,14 @@ def rule_a(ctx):
     results = {}
     for L in (True, False):
         budgets = _budgets(ctx, L)
-        paths = ctx.paths(it, ff, symbolic_compare=True)
+        # the boolean / integer constants __init__ leaves in the object (the first-fragment flag in particular)
+        heap = {}
+        for n in walk_local(ff.lookup('__init__').node):
+            if isinstance(n, ast.Assign) and len(n.targets) == 1 and isinstance(n.targets[0], ast.Attribute) and \
+                    isinstance(n.targets[0].value, ast.Name) and n.targets[0].value.id == 'self' and \
+                    isinstance(n.value, ast.Constant) and isinstance(n.value.value, bool):
+                heap[(('self',), n.targets[0].attr)] = const(n.value.value)
+        paths = ctx.paths(it, ff, symbolic_compare=True, initial_heap=heap)
         for p in paths:
             firsts = {}
             for e in p.events:
@@ -202,11 +209,12 @@ def rule_a(ctx):
                     is_first = None
                     if first is not None and first.is_const():
                         is_first = first.const
-                    # which budget attribute fed the reads tells first/subsequent on paths where _is_first is opaque
-                    which = 'first' if "first_fragment_size_bytes" in repr([a.term for a in e.data['args']]) or \
-                        is_first is True else 'subsequent'
+                    # the position of the fragment (its first-mark) decides which header precedes it on the wire,
+                    # whatever budget the reads used; an opaque mark is taken both ways
+                    whiches = ['first'] if is_first is True else ['subsequent'] if is_first is False else \
+                        ['first', 'subsequent']
                     carries_meta = 'metadata' in comps
-                    for T in frag_classes:
+                    for T, which in [(T, w) for T in frag_classes for w in whiches]:
                         hdr = HEADER + middles[T] if which == 'first' else HEADER
                         wire = comps_bound + (3 if L else 0) + hdr + (3 if carries_meta else 0)
                         # H is what get_header_length(T) passes for the first fragment
@@ -231,11 +239,19 @@ def rule_a(ctx):
         if worst is None:
             raise AnalysisError('C03.a: no %s fragment found' % kind)
         if worst[0] < 0:
-            rep.bad('C03.a', c, (it.file, worst[4].line),
-                    'a %s %s fragment of %s (%s) can be %d bytes longer on the wire than fragment_size_bytes: the body '
-                    'budget does not account for the 3-byte metadata length field' % (
-                        worst[3], kind, worst[1], 'length-prefixed' if worst[2] else 'message framing', -worst[0]),
-                    extra={'instances': len(lst)})
+            # one report per distinct overshoot, so that a recorded finding (by its amount) never hides another one
+            by_excess = {}
+            for slack, tname, L, which, e in lst:
+                if slack.const < 0:
+                    by_excess.setdefault(-slack.const, []).append((tname, L, which, e))
+            for excess, insts in sorted(by_excess.items()):
+                tname, L, which, e = insts[0]
+                rep.bad('C03.a', 'FrameFragmenter / %s fragment exceeds the configured size by %d bytes' % (
+                    kind, excess), (it.file, e.line),
+                        'a %s %s fragment of %s (%s) can be %d bytes longer on the wire than fragment_size_bytes '
+                        '(body budget + header + length fields > size)' % (
+                            which, kind, tname, 'length-prefixed' if L else 'message framing', excess),
+                        extra={'instances': len(insts), 'which': sorted({w for _, _, w, _ in insts})})
         else:
             rep.ok('C03.a', c, it, 'body budget + wire overhead <= fragment size in all %d instances (5 frame '
                                    'classes x 2 framings x first/subsequent), tightest slack %d' % (len(lst), worst[0]))
@@ -731,5 +747,379 @@ def _all_attrs(cls):
     return sorted(out)
 
 
+def _flat(t):
+    out = []
+    if isinstance(t, tuple):
+        out.append(t)
+        for x in t:
+            out.extend(_flat(x))
+    return out
+
+
+def rule_g(ctx):
+    """The fragment generator hands out every byte it reads, once, in the field it came from; counts every read; marks
+    exactly the first fragment as first; yields at least one fragment; and ends only with both fields exhausted."""
+    rep = ctx.report
+    ff = ctx.repo.cls(FRAG)
+    it = ff.lookup('__iter__')
+    init = ff.lookup('__init__')
+    self_t = ('self',)
+    # totals: self.T = safe_len(self.X) / len(self.X) in __init__
+    totals = {}
+    consts = {}
+    for n in walk_local(init.node):
+        if isinstance(n, ast.Assign) and len(n.targets) == 1 and isinstance(n.targets[0], ast.Attribute) and \
+                isinstance(n.targets[0].value, ast.Name) and n.targets[0].value.id == 'self':
+            a = n.targets[0].attr
+            v = n.value
+            if isinstance(v, ast.Call) and len(v.args) == 1 and isinstance(v.args[0], ast.Attribute) and \
+                    isinstance(v.args[0].value, ast.Name) and v.args[0].value.id == 'self' and \
+                    ast.unparse(v.func).split('.')[-1] in ('safe_len', 'len'):
+                totals[v.args[0].attr] = a
+            if isinstance(v, ast.Constant) and isinstance(v.value, (bool, int)):
+                consts[a] = v.value
+    if set(totals) != {'data', 'metadata'}:
+        raise AnalysisError('C03.g: totals of data and metadata not found in FrameFragmenter.__init__ (%s)' % totals)
+    heap = {(self_t, a): const(v) for a, v in consts.items()}
+    paths = ctx.paths(it, ff, symbolic_compare=True, initial_heap=heap)
+    if not paths:
+        raise AnalysisError('C03.g: no path through FrameFragmenter.__iter__')
+
+    def field_of_read(e):
+        r = e.data.get('recv')
+        if r is None:
+            return None
+        t = strip_epoch(r.term)
+        if t[0] == 'call' and str(t[1]).endswith('BytesIO') and t[2] and strip_epoch(t[2][0])[0] == 'attr' and \
+                strip_epoch(t[2][0])[1] == self_t:
+            return strip_epoch(t[2][0])[2]
+        return None
+
+    def len_of(term):
+        return [x for x in _flat(term) if x and x[0] == 'pure' and x[1] == 'len']
+
+    def added_len_arg(value_term):
+        """X in `counter += len(X)` (the right operand of the augmented store), or None"""
+        t = strip_epoch(value_term)
+        if t[0] == 'op' and t[1] == 'Add':
+            r = strip_epoch(t[3])
+            if r[0] == 'pure' and r[1] == 'len' and r[3]:
+                return strip_epoch(r[3][0])
+        return None
+
+    def direct_len(x):
+        """r when x is exactly len(r), else None"""
+        x = strip_epoch(x) if isinstance(x, tuple) else x
+        if isinstance(x, tuple) and x and x[0] == 'pure' and x[1] == 'len' and x[3]:
+            return strip_epoch(x[3][0])
+        return None
+
+    def emptiness(c):
+        """(read term, True if the cond says len(read) == 0 / False if it says > 0) for a direct comparison of
+        len(read) with 0; None otherwise"""
+        if c.kind != 'cond':
+            return None
+        k = strip_epoch(c.data['key'])
+        if k[0] not in ('eq', 'lt', 'gt', 'ne') or len(k) < 3:
+            return None
+        sides = [k[1], k[2]]
+        zero = [i for i, x in enumerate(sides) if isinstance(x, tuple) and strip_epoch(x) == ('const', 0)]
+        if len(zero) != 1:
+            return None
+        r = direct_len(sides[1 - zero[0]])
+        if r is None:
+            return None
+        v = c.data['value']
+        if k[0] == 'eq':
+            return r, v is True
+        if k[0] == 'ne':
+            return r, v is False
+        # lt(0, len) / gt(len, 0): true means non-empty
+        if (k[0] == 'lt' and zero[0] == 0) or (k[0] == 'gt' and zero[0] == 1):
+            return r, v is False
+        return None
+
+    def reader_field(read_term):
+        t = strip_epoch(read_term)
+        if t and t[0] == 'call' and t[1] == 'read' and t[2]:
+            recv = t[2][-1]
+            for z in _flat(recv):
+                if isinstance(z, tuple) and len(z) >= 3 and z[0] == 'attr' and z[1] == self_t and \
+                        z[2] in ('data', 'metadata'):
+                    return z[2]
+        return None
+
+    def exhausted(p, X, before=10 ** 9):
+        T = ('attr', self_t, totals[X])
+        for c in p.events:
+            if c.kind != 'cond' or c.seq >= before:
+                continue
+            k = strip_epoch(c.data['key'])
+            sides = [strip_epoch(x) for x in k[1:3] if isinstance(x, tuple)]
+            if k[0] == 'eq' and T in sides and ('const', 0) in sides and c.data['value'] is True:
+                return True
+            if k[0] == 'truth' and isinstance(k[1], tuple) and k[1] and k[1][0] == 'cmp' and k[1][1] == 'Eq' and \
+                    c.data['value'] is True and T in [strip_epoch(x) for x in k[1][2:4]]:
+                other = [x for x in k[1][2:4] if strip_epoch(x) != T]
+                if other and strip_epoch(other[0]) == ('const', 0):
+                    return True
+                if other and (any(isinstance(x, tuple) and x and x[0] == 'attr' and len(x) > 2 and
+                                  x[2] in counters.get(X, ()) for x in _flat(other[0])) or
+                              any(reader_field(strip_epoch(l[3][0])) == X for l in len_of(other[0]) if l[3])):
+                    return True
+            em = emptiness(c)
+            if em is not None and reader_field(em[0]) == X and em[1] is True:
+                return True
+            if k[0] == 'lt' and len(k) >= 3 and c.data['value'] is True:
+                r = direct_len(k[1])
+                if r is not None and reader_field(r) == X and direct_len(k[2]) is None and \
+                        strip_epoch(k[2]) != ('const', 0):
+                    return True  # short read: fewer bytes than asked for
+        return False
+
+    problems = {}
+    # the attribute the first-mark of a fragment is read from
+    first_attr = None
+    for n in walk_local(it.node):
+        if isinstance(n, ast.keyword) and n.arg == 'is_first' and isinstance(n.value, ast.Attribute) and \
+                isinstance(n.value.value, ast.Name) and n.value.value.id == 'self':
+            first_attr = n.value.attr
+
+    def bad(key, ev, why):
+        problems.setdefault(key, (ev, why))
+
+    n_reads = n_frags = 0
+    counters = {}
+    for p in paths:
+        for e in p.events:
+            if e.kind == 'store' and e.data['target'][0] == 'attr' and e.data.get('aug') == 'Add' and \
+                    e.data['target'][1] == self_t:
+                arg = added_len_arg(e.data['value'].term)
+                for r in p.events:
+                    if r.kind == 'call' and r.data.get('name') == 'read' and field_of_read(r) and r.seq < e.seq and \
+                            strip_epoch(r.data['value'].term) == arg:
+                        counters.setdefault(field_of_read(r), set()).add(e.data['target'][2])
+    for X in ('data', 'metadata'):
+        for cn in counters.get(X, ()):
+            if consts.get(cn) != 0 or isinstance(consts.get(cn), bool):
+                bad('count', None, 'the byte counter %s does not start at 0' % cn)
+        if len(counters.get(X, ())) != 1:
+            bad('count', None, 'bytes read from %s are not accumulated in one counter (%s)' % (
+                X, sorted(counters.get(X, ()))))
+    for p in paths:
+        reads = [e for e in p.events if e.kind == 'call' and e.data.get('name') == 'read' and field_of_read(e)]
+        yields = [e for e in p.events if e.kind == 'yield']
+        frag_of = {}
+        for e in p.events:
+            if e.kind == 'new' and e.data['cls'].name == 'Fragment':
+                frag_of[e.data['value'].term] = e
+        yielded = [frag_of[y.data['value'].term] for y in yields if y.data['value'].term in frag_of]
+        n_frags += len(yielded)
+        # content of each yielded fragment
+        content = {}
+        for fe in yielded:
+            obj = fe.data['value'].term
+            st = {}
+            for e in p.events:
+                if e.kind == 'store' and e.data['target'][0] == 'attr' and e.data['target'][1] == obj and \
+                        e.seq < [y for y in yields if y.data['value'].term == obj][0].seq:
+                    st[e.data['target'][2]] = e.data['value']
+            content[obj] = st
+        # I4 first mark
+        for i, fe in enumerate(yielded):
+            v = content[fe.data['value'].term].get('is_first')
+            want = (i == 0)
+            if v is None or not v.is_const() or v.const is not want:
+                bad('first', fe, 'fragment #%d of a frame is marked is_first=%s' % (
+                    i + 1, fmt_term(v.term) if v is not None else None))
+        # I4b after every yielded fragment the first-mark is cleared before anything else is read or yielded
+        for y in yields:
+            later = [e for e in p.events if e.seq > y.seq]
+            nxt = [e for e in later if e.kind == 'yield' or (e.kind == 'call' and e.data.get('name') == 'read' and
+                                                             field_of_read(e)) or
+                   (e.kind == 'loop' and e.data.get('phase') in ('back', 'cut'))]
+            if not nxt:
+                continue
+            cleared = [e for e in later if e.seq < nxt[0].seq and e.kind == 'store' and
+                       e.data['target'][0] == 'attr' and e.data['target'][1] == self_t and
+                       e.data['target'][2] == first_attr and e.data['value'].is_const() and
+                       e.data['value'].const is False]
+            if first_attr and not cleared:
+                bad('first', y, 'after the fragment yielded at line %s the generator goes on (line %s) without '
+                                'clearing %s: the next fragment is marked first again' % (y.line, nxt[0].line,
+                                                                                        first_attr))
+        for idx, r in enumerate(reads):
+            n_reads += 1
+            X = field_of_read(r)
+            rt = strip_epoch(r.data['value'].term)
+            nxt = [e.seq for e in reads[idx + 1:] if field_of_read(e) == X]
+            horizon = min([y.seq for y in yields if y.seq > r.seq] + nxt + [10 ** 9])
+            # I1 counted
+            if X in counters and len(counters[X]) == 1:
+                cname = next(iter(counters[X]))
+                counted = [e for e in p.events if r.seq < e.seq < horizon and e.kind == 'store' and
+                           e.data['target'][0] == 'attr' and e.data['target'][2] == cname and
+                           e.data.get('aug') == 'Add' and added_len_arg(e.data['value'].term) == rt]
+                complete = p.outcome == 'return' or any(e.seq >= horizon for e in p.events)
+                if not counted and complete:
+                    bad('count', r, 'the %s read at line %s is not added to %s before the next read / yield: the '
+                                    'exhaustion test compares a stale counter' % (X, r.line, cname))
+            # I2 handed out once, in its own field
+            users = []
+            for obj, st in content.items():
+                for fld in ('data', 'metadata'):
+                    v = st.get(fld)
+                    if v is not None and strip_epoch(v.term) == rt:
+                        users.append((obj, fld))
+            if any(fld != X for obj, fld in users):
+                bad('content', r, 'bytes read from %s are yielded as %s' % (X, [f for o, f in users if f != X][0]))
+            if len(users) > 1:
+                bad('content', r, 'the %s read at line %s is yielded %d times' % (X, r.line, len(users)))
+            if not users and p.outcome == 'return':
+                empty = any(em is not None and em[0] == rt and em[1] is True
+                            for em in (emptiness(c) for c in p.events if c.seq > r.seq))
+                if not empty:
+                    bad('content', r, 'bytes read from %s at line %s can be dropped: no yielded fragment carries them '
+                                      'and the read is not known to be empty' % (X, r.line))
+        if p.outcome != 'return':
+            continue
+        # I8 at least one fragment
+        if not yielded:
+            # without a fragment the frame is never sent; the only such paths tolerated are those on which a read of
+            # each field returned nothing (they contradict the non-zero totals tested at the top and cannot be run)
+            def read_empty(X):
+                return any(em is not None and reader_field(em[0]) == X and em[1] is True
+                           for em in (emptiness(c) for c in p.events))
+            if not (read_empty('data') and read_empty('metadata')):
+                bad('atleast', None, 'the generator can end without yielding any fragment (the frame is never sent)')
+        # I7 both fields exhausted
+        for X in ('data', 'metadata'):
+            if not exhausted(p, X):
+                bad('complete', None, 'the generator can end without %s being exhausted: the remaining %s is never '
+                                      'sent' % (X, X))
+        # I9 a fragment is marked last only when the field its mark does not test is known to be exhausted
+    for p in paths:
+        yields = [e for e in p.events if e.kind == 'yield']
+        for y in yields:
+            fe = [e for e in p.events if e.kind == 'new' and e.data['cls'].name == 'Fragment' and
+                  e.data['value'].term == y.data['value'].term]
+            if not fe:
+                continue
+            il = None
+            for e in p.events:
+                if e.kind == 'store' and e.data['target'][0] == 'attr' and e.seq < y.seq and \
+                        e.data['target'][1] == y.data['value'].term and e.data['target'][2] == 'is_last':
+                    il = e.data['value']
+            if il is None:
+                continue
+            t = strip_epoch(il.term)
+            if t[0] == 'const' and t[1] is not True:
+                continue
+            verdicts = [c.data['value'] for c in p.events if c.kind == 'cond' and c.seq < y.seq and
+                        strip_epoch(c.data['key'])[0] == 'truth' and strip_epoch(c.data['key'])[1] == t]
+            if verdicts and verdicts[-1] is False:
+                continue  # the mark is known to be false on this path
+            tested = set()
+            if t[0] == 'cmp':
+                for X in ('data', 'metadata'):
+                    if ('attr', self_t, totals[X]) in [strip_epoch(x) for x in t[2:4]]:
+                        tested.add(X)
+            for X in ('data', 'metadata'):
+                if X not in tested and not exhausted(p, X, before=y.seq):
+                    bad('mark', fe[0], 'a fragment can be marked last (%s) while %s is not known to be exhausted: the '
+                                       'receiver completes the frame early and the rest arrives as a new frame' % (
+                                           fmt_term(t)[:80], X))
+    if n_reads < 3 or n_frags < 3:
+        raise AnalysisError('C03.g: %d reads / %d fragments on the paths (vacuity guard)' % (n_reads, n_frags))
+    labels = {'count': 'every read is counted before the next exhaustion test',
+              'content': 'every byte read is yielded once, in its own field',
+              'first': 'exactly the first fragment is marked first',
+              'atleast': 'at least one fragment per frame',
+              'complete': 'ends only with data and metadata exhausted',
+              'mark': 'marked last only when the other field is exhausted'}
+    for key, label in labels.items():
+        construct = 'FrameFragmenter.__iter__ / %s' % label
+        if key in problems:
+            ev, why = problems[key]
+            rep.bad('C03.g', construct, (it.file, ev.line) if ev is not None else it, why)
+        else:
+            rep.ok('C03.g', construct, it, '%d paths, %d reads, %d yielded fragments' % (len(paths), n_reads, n_frags))
+
+
+def rule_h(ctx):
+    """data_to_fragments_if_required: without a fragment size the payload goes out as one fragment; with one, every
+    fragment of a FrameFragmenter built from the same arguments is passed on."""
+    rep = ctx.report
+    m = ctx.repo.module('rsocket.frame_fragmenter')
+    fs = m.functions.get('data_to_fragments_if_required')
+    if not fs:
+        raise AnalysisError('C03.h: data_to_fragments_if_required vanished')
+    f = fs[-1]
+    par = lambda n: ('param', f.qualname, n)
+    ps = ctx.paths(f, None, inline_depth=3)
+    ok_plain = ok_frag = True
+    why = ''
+    n_plain = n_iter = 0
+    for p in ps:
+        if p.outcome != 'return':
+            continue
+        nn = [c for c in p.events if c.kind == 'cond' and c.data['key'][0] == 'isnone' and
+              strip_epoch(c.data['key'][1]) == par('fragment_size_bytes')]
+        yields = [e for e in p.events if e.kind == 'yield']
+        if nn and nn[0].data['value'] is True:
+            n_plain += 1
+            if len(yields) != 1:
+                ok_plain, why = False, 'without a fragment size %d fragments are produced' % len(yields)
+                continue
+            obj = yields[0].data['value'].term
+            st = {}
+            for e in p.events:
+                if e.kind == 'store' and e.data['target'][0] == 'attr' and e.data['target'][1] == obj:
+                    st[e.data['target'][2]] = strip_epoch(e.data['value'].term)
+            if st.get('data') != par('data') or st.get('metadata') != par('metadata'):
+                ok_plain, why = False, 'the single fragment does not carry the data and metadata passed in'
+            if st.get('is_last') not in (('const', None), ('const', True)):
+                ok_plain, why = False, 'the single fragment is marked not-last'
+        elif nn:
+            news = [e for e in p.events if e.kind == 'new' and e.data['cls'].name == 'FrameFragmenter']
+            if len(news) != 1:
+                ok_frag, why = False, 'with a fragment size no FrameFragmenter is built'
+                continue
+            obj = news[0].data['value'].term
+            st = {}
+            for e in p.events:
+                if e.kind == 'store' and e.data['target'][0] == 'attr' and e.data['target'][1] == obj and \
+                        e.data['target'][2] in ('data', 'metadata') and e.data['target'][2] not in st:
+                    st[e.data['target'][2]] = strip_epoch(e.data['value'].term)
+            if st.get('data') != par('data') or st.get('metadata') != par('metadata'):
+                ok_frag, why = False, 'the fragmenter is not given the data and metadata passed in (%s)' % {
+                    k: fmt_term(v) for k, v in st.items()}
+            # the sizes it computes mention each of the three size arguments passed through, under their own names
+            sizes = [strip_epoch(e.data['value'].term) for e in p.events if e.kind == 'store' and
+                     e.data['target'][0] == 'attr' and e.data['target'][1] == obj and
+                     e.data['target'][2] not in ('data', 'metadata')]
+            flat = [x for t in sizes for x in _flat(t)]
+            for need in ('fragment_size_bytes', 'first_frame_header_size'):
+                if par(need) not in flat:
+                    ok_frag, why = False, 'the fragmenter does not receive %s' % need
+            flr = [c for c in p.events if c.kind == 'cond' and c.data['key'][0] == 'truth' and
+                   strip_epoch(c.data['key'][1]) == par('frame_length_required')]
+            if not flr:
+                ok_frag, why = False, 'the fragmenter does not receive frame_length_required'
+            entered = [e for e in p.events if e.kind == 'loop' and e.data.get('phase') == 'enter']
+            if entered:
+                n_iter += 1
+                if len(yields) != len(entered) or any(
+                        strip_epoch(y.data['value'].term)[0] not in ('elem', 'iter', 'next', 'item') and
+                        'FrameFragmenter' not in repr(y.data['value'].term) for y in yields):
+                    ok_frag, why = False, 'a fragment produced by the fragmenter is not passed on'
+    rep.add('C03.h', 'data_to_fragments_if_required / no fragment size: one fragment with the whole payload', f,
+            ok_plain and n_plain > 0, why if not ok_plain else 'Fragment(data, metadata, is_last=None) on %d paths' %
+            n_plain)
+    rep.add('C03.h', 'data_to_fragments_if_required / fragment size: every fragment of the fragmenter passed on', f,
+            ok_frag and n_iter > 0, why if not ok_frag else 'FrameFragmenter(data, metadata, sizes…) iterated and each '
+                                                            'element yielded (%d paths)' % n_iter)
+
+
 RULES = [('C03.a', rule_a), ('C03.b', rule_b), ('C03.c', rule_c), ('C03.d', rule_d), ('C03.e', rule_e),
-         ('C03.f', rule_f)]
+         ('C03.f', rule_f), ('C03.g', rule_g), ('C03.h', rule_h)]
